@@ -10,6 +10,8 @@
   C13.3  segments are built through AlignmentSegment.create / EmptyAlignmentSegment only (score = sum, see C04.2)
   C13.4  fallback: a single empty segment when nothing qualifies; the last candidate is emitted after the scan
   C13.5  the scan visits every position exactly once (cursor advances by one; loop runs while cursor <= len - 1)
+  C13.12 AlignmentSegment.create never withholds a non-empty run (the builder reads its running maximum back from the candidate);
+         judged as the builder calls it: paths that need an optional argument the builder never passes are not its paths
 Declined: maximality / "cannot be extended to the right" - properties of the scan as an algorithm.
 """
 from __future__ import annotations
@@ -41,7 +43,12 @@ def run(ck):
     from ..report import RuleView
     from . import c04
     c04.ownership(RuleView(ck, {"C04.2": "C13.6"}, only_constructs=("AlignmentSegment.create", "raw-AlignmentSegment", "_AlignmentSegmentBuilder",
-                                                                    "AlignmentSegmentsFactory", "EmptyAlignmentSegment", "segment-fields")), rows=False)       # segments only: result rows are no concern of this property
+                                                                    "AlignmentSegmentsFactory", "EmptyAlignmentSegment", "segment-fields")), rows=False,
+                  create_callers=("_AlignmentSegmentBuilder",))       # segments only: result rows are no concern of this property
+    ck.clause("C13.12", "AlignmentSegment.create hands back a segment holding the run it was given whenever the run is not empty: the builder "
+                        "reads its running maximum back from the candidate (currentSegment.segmentScore), so a create() that withholds a "
+                        "non-empty run under a further condition makes the break test and the accept test compare with 0 instead")
+    _create_is_total(ck)
     ck.clause("C13.8", "the segment builder works with the configured --minScore and --breakSegmentThreshold: the factory passes both "
                        "through unchanged and unexchanged (as C04.1)")
     c04.wiring(RuleView(ck, {"C04.1": "C13.8"}, only_constructs=("AlignmentSegmentsFactory",)))
@@ -530,3 +537,83 @@ def _every_step_tested(ck, builder, main, methods, same_class, EXT, CUR, END, TH
                                     f"understood: {T.show(cs[0])[:120]} (a prefix that is a new maximum must be accepted unless a longer "
                                     "one is certain to follow)")
         ck.ok("C13.11", f"{builder.name}:accept-test-every-step", accept_fn.where, "the accept step begins with the accept test")
+
+
+def _create_is_total(ck):
+    """C13.12: on every path through AlignmentSegment.create that does not build an AlignmentSegment the only thing assumed is that the
+    positions handed in are empty. A further condition that mentions another parameter of create or the score of the run is reported;
+    anything else on such a path is refused."""
+    p = ck.ctx.p
+    seg = p.find_class("AlignmentSegment")
+    create = p.lookup_method(seg, "create", None)
+    if create is None:
+        raise AnalysisError("AlignmentSegment.create not found")
+    params = [pp.name for pp in create.call_params()]
+    if not params:
+        raise AnalysisError(f"{create.where}: AlignmentSegment.create(positions, ...) expected")
+    POS = V(params[0])
+    others = [V(n) for n in params[1:]]
+    n_full = n_empty = 0
+    from .c04 import never_passed_params, assume_absent
+    never_passed = never_passed_params(ck, create, ("_AlignmentSegmentBuilder",))
+    for pa in explore(ck, create):
+        if pa.outcome != "return" or pa.value is None:
+            continue
+        for conds, leaf in _alternatives(pa.value):
+            assumed = assume_absent(list(pa.state.assumptions) + [(c, tv, pa.node) for c, tv in conds], never_passed)
+            if assumed is None:
+                continue            # a path the builder cannot take: it never passes that optional argument
+            n_full, n_empty = _judge_create_leaf(ck, create, seg, POS, others, pa, assumed, leaf, n_full, n_empty)
+    ck.floor("C13.12 paths of AlignmentSegment.create that build a segment", n_full, 1)
+    ck.floor("C13.12 paths of AlignmentSegment.create that answer with the empty segment", n_empty, 1)
+    ck.ok("C13.12", "AlignmentSegment.create:total", create.where, f"{n_full} building path(s), {n_empty} empty path(s) taken only for an empty run")
+
+
+def _alternatives(t):
+    """a conditional expression is read as the paths it stands for: [(conditions assumed, value)]"""
+    if t[0] == "select" and len(t) == 4:
+        for conds, leaf in _alternatives(t[2]):
+            yield [(t[1], True)] + conds, leaf
+        for conds, leaf in _alternatives(t[3]):
+            yield [(t[1], False)] + conds, leaf
+    else:
+        yield [], t
+
+
+def _judge_create_leaf(ck, create, seg, POS, others, pa, assumed, leaf, n_full, n_empty):
+    if True:
+        builds = any(x[0] == "new" and x[1] == seg.qualname for x in T.subterms(leaf))
+        if builds:
+            return n_full + 1, n_empty
+        n_empty += 1
+        extra = []
+        known_empty = False
+        for c, tv, node in assumed:
+            if (c == POS and not tv) or (c == ("not", POS) and tv) or (c == T.mk_not(POS) and tv):
+                known_empty = True
+            subs = list(T.subterms(c))
+            about_score = any(x[0] == "call" and x[1] == "sum" for x in subs) or any(x[0] == "attr" and x[2] in ("score", "segmentScore") for x in subs)
+            about_other = any(x in others for x in subs)
+            only_pos = any(x == POS for x in subs) and not about_score and not about_other
+            if only_pos:
+                continue
+            extra.append((c, tv, node, about_score or about_other))
+        decisive = [e for e in extra if e[3]]
+        if known_empty:
+            pass                    # the run is empty on this path: whatever else was tested on the way does not withhold anything
+        elif decisive:
+            c, tv, node, _ = decisive[-1]
+            ck.violation("C13.12", "AlignmentSegment.create:non-empty-run-withheld", where(create, node),
+                         "create() answers with an empty segment for a run that is not empty, under a condition on the run's score or on a "
+                         "further argument: the builder keeps that answer as its candidate and reads the running maximum back from it "
+                         "(0 for an empty segment) - a drop by the break threshold below the true maximum no longer breaks the run, and "
+                         "the run that is finally emitted is not a maximal one (scores 3, -2, 3 with minScore 4 and threshold 2 come "
+                         "back as one segment)", found=("" if tv else "not ") + T.show(c)[:160],
+                         required="an empty segment only for an empty run")
+        elif not known_empty and not extra:
+            raise AnalysisError(f"{where(create, pa.node)}: AlignmentSegment.create returns without building a segment on a path that is "
+                                f"not recognised as 'the run is empty': {[T.show(c)[:60] for c, _, _ in pa.state.assumptions]}")
+        elif extra:
+            raise AnalysisError(f"{where(create, extra[0][2])}: AlignmentSegment.create returns without building a segment under a "
+                                f"condition that is not understood: {T.show(extra[0][0])[:160]}")
+        return n_full, n_empty
